@@ -1,6 +1,7 @@
 package stablecomp
 
 import (
+	"strings"
 	"bytes"
 	"fmt"
 	"testing"
@@ -192,6 +193,17 @@ func TestC10(t *testing.T) {
 			r.Sample("generated-model-files", m.Names())
 		}
 	})
+	// derived-name shapes: names that coincide only after a derivation the compiler performs (map entry
+	// type names, JSON names, group field names). Only sets accepted from source are checked.
+	shapes := derivedNameShapes()
+	r.Par(len(shapes), func(i int) {
+		id := fmt.Sprintf("shape/%d", i)
+		if !r.Want(id) {
+			return
+		}
+		checkFixpoint(r, id, map[string]string{"a.proto": shapes[i]}, []string{"a.proto"}, 1)
+		r.Class("derived-name-shape")
+	})
 	w, err := loadR2World()
 	if err != nil {
 		t.Fatal(err)
@@ -221,4 +233,69 @@ func maskLossy(fd *descriptorpb.FileDescriptorProto) {
 		}
 	}
 	rec(fd.MessageType)
+}
+
+// derivedNameShapes enumerates small files in which two members of one message have names that are
+// related through a derivation (camel case, map entry name, lower-cased group name), in both orders
+// and for every syntax.
+func derivedNameShapes() []string {
+	names := []string{"foo_bar", "fooBar", "FooBar", "foo_Bar", "foobar", "foo__bar", "_foo_bar", "Foo_bar"}
+	kinds := []string{"scalar", "repeated", "map", "message", "group", "oneof-member", "nested-message", "nested-enum"}
+	var out []string
+	for _, syn := range []string{"proto2", "proto3", "editions"} {
+		head := "syntax = \"" + syn + "\";\n"
+		opt := "optional "
+		switch syn {
+		case "proto3":
+			opt = ""
+		case "editions":
+			head = "edition = \"2023\";\n"
+			opt = ""
+		}
+		decl := func(kind, name string, num int) string {
+			switch kind {
+			case "scalar":
+				return fmt.Sprintf("  %sint32 %s = %d;\n", opt, name, num)
+			case "repeated":
+				return fmt.Sprintf("  repeated int32 %s = %d;\n", name, num)
+			case "map":
+				return fmt.Sprintf("  map<string, string> %s = %d;\n", name, num)
+			case "message":
+				return fmt.Sprintf("  %sOther %s = %d;\n", opt, name, num)
+			case "group":
+				if syn != "proto2" {
+					return ""
+				}
+				g := strings.ToUpper(name[:1]) + name[1:]
+				if g[0] < 'A' || g[0] > 'Z' {
+					return ""
+				}
+				return fmt.Sprintf("  optional group %s = %d { optional int32 x = 1; }\n", g, num)
+			case "oneof-member":
+				return fmt.Sprintf("  oneof o%d { int32 %s = %d; }\n", num, name, num)
+			case "nested-message":
+				return fmt.Sprintf("  message %sEntry { %sint32 key = 1; %sint32 value = 2; }\n", strings.ToUpper(name[:1])+name[1:], opt, opt)
+			case "nested-enum":
+				return fmt.Sprintf("  enum %sEntry { Z%d = 0; }\n", strings.ToUpper(name[:1])+name[1:], num)
+			}
+			return ""
+		}
+		for _, k1 := range kinds {
+			for _, k2 := range kinds[:6] {
+				for _, n1 := range names {
+					for _, n2 := range names {
+						if n1 == n2 {
+							continue
+						}
+						d1, d2 := decl(k1, n1, 1), decl(k2, n2, 2)
+						if d1 == "" || d2 == "" || (k1 != "map" && k2 != "map" && k1 != "group" && k2 != "group") {
+							continue
+						}
+						out = append(out, head+"package x;\nmessage Other {}\nmessage M {\n"+d1+d2+"}\n")
+					}
+				}
+			}
+		}
+	}
+	return out
 }
